@@ -72,20 +72,49 @@ func (z *Decimal) GobDecode(buf []byte) error {
 		return fmt.Errorf("Decimal.GobDecode: encoding version %d not supported", buf[0])
 	}
 
+	if len(buf) < 6 {
+		return fmt.Errorf("Decimal.GobDecode: buffer too small")
+	}
+
 	oldPrec := z.prec
 	oldMode := z.mode
 
 	b := buf[1]
-	z.mode = RoundingMode((b >> 5) & 7)
-	z.acc = Accuracy((b>>3)&3) - 1
-	z.form = form((b >> 1) & 3)
-	z.neg = b&1 != 0
-	z.prec = binary.BigEndian.Uint32(buf[2:])
-
-	if z.form == finite {
-		z.exp = int32(binary.BigEndian.Uint32(buf[6:]))
-		z.mant = z.mant.setBytes(buf[10:])
+	mode := RoundingMode((b >> 5) & 7)
+	acc := Accuracy((b>>3)&3) - 1
+	f := form((b >> 1) & 3)
+	prec := binary.BigEndian.Uint32(buf[2:])
+	if mode > ToPositiveInf || acc > Above || f > inf {
+		return fmt.Errorf("Decimal.GobDecode: invalid mode, accuracy or form")
 	}
+
+	if f == finite {
+		if len(buf) < 10 {
+			return fmt.Errorf("Decimal.GobDecode: buffer too small for finite form decimal")
+		}
+		// only accept what GobEncode can produce: a normalized mantissa of
+		// decimal words holding no more than prec digits
+		// (decoded into a new slice: z is left alone if buf is rejected)
+		mant := dec(nil).setBytes(buf[10:])
+		if len(mant) == 0 || mant[len(mant)-1] < _DB/10 {
+			return fmt.Errorf("Decimal.GobDecode: mantissa is not normalized")
+		}
+		for _, w := range mant {
+			if w >= _DB {
+				return fmt.Errorf("Decimal.GobDecode: invalid mantissa word")
+			}
+		}
+		if uint(len(mant))*_DW-mant.trailingZeroDigits() > uint(prec) {
+			return fmt.Errorf("Decimal.GobDecode: mantissa has more digits than the precision")
+		}
+		z.exp = int32(binary.BigEndian.Uint32(buf[6:]))
+		z.mant = mant
+	}
+	z.mode = mode
+	z.acc = acc
+	z.form = f
+	z.neg = b&1 != 0
+	z.prec = prec
 
 	if oldPrec != 0 {
 		z.mode = oldMode
